@@ -40,12 +40,29 @@ class CommunicationHandshakeWrapper(Wrapper):
                 other_id: Discrete(2) for other_id in self.agents if other_id != agent.id
             })
             agent.action_space = Dict(action_space_helper)
+            # A declared null action becomes the null action of the augmented space: the
+            # agent's own null action and no communication. The empty dict means that no
+            # null action was given.
+            if not (type(agent.null_action) is dict and len(agent.null_action) == 0):
+                agent.null_action = {
+                    'action': agent.null_action,
+                    'send': {other_id: 0 for other_id in self.agents if other_id != agent.id},
+                    'receive': {other_id: 0 for other_id in self.agents if other_id != agent.id},
+                }
 
             obs_space_helper = {'obs': agent.observation_space}
             obs_space_helper['message_buffer'] = Dict({
                 other_id: Discrete(2) for other_id in self.agents if other_id != agent.id
             })
             agent.observation_space = Dict(obs_space_helper)
+            # Likewise for a declared null observation: no incoming messages.
+            if not (type(agent.null_observation) is dict and len(agent.null_observation) == 0):
+                agent.null_observation = {
+                    'obs': agent.null_observation,
+                    'message_buffer': {
+                        other_id: 0 for other_id in self.agents if other_id != agent.id
+                    },
+                }
 
     def reset(self, **kwargs):
         """
